@@ -330,13 +330,14 @@ func (osObj *VirtualOS) MkdirTemp(dir, pattern string) (string, error) {
 	if osObj.tmp == "" {
 		return "", errors.New("no temporary directory")
 	}
-	mount, _, found := osObj.findMount(osObj.tmp)
+	mount, tmpPath, found := osObj.findMount(osObj.tmp)
 	if !found {
 		return "", fmt.Errorf("temporary directory not found: %s", osObj.tmp)
 	}
 	rint := rand.Int63()
 	dirName := fmt.Sprintf("%d-%s", rint, pattern)
-	if err := mount.Source.Mkdir(dirName, 0o755); err != nil {
+	// Create the directory where the temporary directory lies within the mount
+	if err := mount.Source.Mkdir(filepath.Join(tmpPath, dirName), 0o755); err != nil {
 		return "", err
 	}
 	return filepath.Join(osObj.tmp, dirName), nil
